@@ -38,10 +38,9 @@ META = dict(
     functions=['thermocouples.Thermocouple.celsius_to_mv', 'thermocouples.Thermocouple.mv_to_celsius',
                'thermocouples.Polynomial.apply', 'thermocouples.Range.within_range', 'scaling.ThermocoupleScaling.scale',
                'scaling.ThermocoupleScaling.from_properties'],
-    bounds=dict(quick='all 8 types, every forward and inverse piece; reals (unbounded for totality, reference ranges otherwise); the '
-                      'inverse tolerance of type K above 0 C is NOT decided in this tier',
-                thorough='same plus type K inverse tolerance on [450,1372] and on six 10-degree windows below 450 C (1-degree exp '
-                         'enclosures; the remaining windows are outside: 20-60 s per obligation)'),
+    bounds=dict(quick='all 8 types, every forward and inverse piece; reals (unbounded for totality, reference ranges otherwise); type K '
+                      'inverse tolerance above 0 C: [450,1372] and six 10-degree windows below 450 C (1-degree exp enclosures)',
+                thorough='same with type K inverse tolerance on all of [0,1372]'),
     outside=['float64 rounding of polynomial evaluation', 'NaN/inf inputs', 'the >= 1e5-point float grid of the quantifier'],
     stubs=['np.exp on a symbolic real: uninterpreted function (identity) / rational enclosure per sub-interval (type K)',
            'NumPy object arrays carry z3 reals through np.piecewise and polyval (Python-level code)'],
@@ -86,11 +85,10 @@ def tasks(tier, seed):
                 # exp enclosures: 1-degree sub-intervals below 450 C (the Gaussian term matters there), coarser above.
                 # Each 1-degree obligation costs seconds: the quick tier decides two 10-degree windows (at 0 C and
                 # around the centre of the Gaussian term) plus everything above 450 C; the thorough tier all of it.
-                if tier != 'thorough':
-                    continue            # 20-60 s per obligation (degree 81, huge rationals): thorough tier only
                 if not any(x.get('kind') == 'invmono' and x['type'] == t for x in ts):
                     ts.append(dict(kind='invmono', type=t, vlo=-0.5, vhi=55.0))
-                for x in [0, 60, 120, 190, 300, 440]:
+                # 1-degree exp enclosures: the quick tier decides six 10-degree windows below 450 C, the thorough tier all 45
+                for x in (list(range(int(a), 450, 10)) if tier == 'thorough' else [0, 60, 120, 190, 300, 440]):
                     if x < b:
                         ts.append(dict(kind='inverse', type=t, lo=x, hi=min(x + 10, b), nsub=10))
                 edges = [x for x in range(450, int(b), 240)] + [b]
